@@ -280,8 +280,13 @@ pub fn c30_reenter_case(src: &mut Src, obs: &mut Obs) -> CaseResult {
     let sb = src.bytes(20);
     let mut sch = Sch::new(sb);
     let seq = src.bool();
+    // an object manager above the object: GetManagedObjects reads every property below it
+    let managed = src.chance(128);
     let c = conn.clone();
     let a = sched.spawn("serve", async move {
+        if managed {
+            c.object_server().at("/", zbus::fdo::ObjectManager).await.expect("at");
+        }
         if seq {
             c.object_server().at("/c30", inline::Reenter { value: 1 }).await.expect("at");
         } else {
@@ -299,11 +304,12 @@ pub fn c30_reenter_case(src: &mut Src, obs: &mut Obs) -> CaseResult {
     let mut kinds = vec![];
     for i in 0..n {
         // (a handler that removes its own object comes last in the burst when it comes at all)
-        let kind = if i + 1 == n && src.chance(60) { 7 + src.below(2) } else { src.below(11) };
+        let kind = if i + 1 == n && src.chance(60) { 7 + src.below(2) } else { src.below(if managed { 12 } else { 11 }) };
         let kind = if i + 1 != n && (kind == 7 || kind == 8) { 9 } else { kind };
         let m = match kind {
             // calls that walk the tree (and look into every interface on the way) while handlers run
             9 => peer.call("/c30", Some("org.freedesktop.DBus.Introspectable"), "Introspect", vec![]),
+            11 => peer.call("/", Some("org.freedesktop.DBus.ObjectManager"), "GetManagedObjects", vec![]),
             10 => peer.call("/c30", Some(iface), "AddMutLater", vec![RVal::S(format!("/c30/l{i}"))]),
             7 => peer.call("/c30", Some(iface), "Close", vec![]),
             8 => peer.call("/c30", Some(iface), "CloseRo", vec![]),
@@ -315,7 +321,7 @@ pub fn c30_reenter_case(src: &mut Src, obs: &mut Obs) -> CaseResult {
             5 => peer.call("/c30", Some("org.freedesktop.DBus.Properties"), "Set", vec![RVal::S(iface.into()), RVal::S("Knob".into()), RVal::V(Box::new((vcore::refmodel::sig::RSig::U, RVal::U(10 + i as u32))))]),
             _ => peer.call("/c30", Some("org.freedesktop.DBus.Properties"), "GetAll", vec![RVal::S(iface.into())]),
         };
-        kinds.push(["Add", "Del", "Emit", "AddMut", "Get(Probe)", "Set(Knob)", "GetAll", "Close", "CloseRo", "Introspect", "AddMutLater"][kind]);
+        kinds.push(["Add", "Del", "Emit", "AddMut", "Get(Probe)", "Set(Knob)", "GetAll", "Close", "CloseRo", "Introspect", "AddMutLater", "GetManagedObjects"][kind]);
         peer.send(&m);
         calls.push(m);
     }
@@ -339,6 +345,11 @@ pub fn c30_reenter_case(src: &mut Src, obs: &mut Obs) -> CaseResult {
         }
     }
     obs.label(if seq { "spawn=false" } else { "spawn=true" });
+    for k in ["Introspect", "AddMutLater", "GetManagedObjects"] {
+        if kinds.contains(&k) {
+            obs.label(k);
+        }
+    }
     obs.nontrivial(fnv(describe().as_bytes()));
     obs.sample(if seq { "inline" } else { "spawned" }, describe);
     Ok(())
